@@ -2,20 +2,29 @@
 from reg._common import COMMON_ASSUME
 
 ENTRY = {
-    'lean_files': ['Tables/C10.lean', 'Props/C10.lean'],
-    'lemma_files': ['Lemmas/Locate.lean', 'Lemmas/Subdivide.lean', 'Lemmas/Bridge.lean', 'Model/Basic.lean', 'Model/Curve.lean', 'Model/Locate.lean'],
+    'lean_files': ['Tables/C10.lean', 'Props/C10.lean', 'Tables/C10Triangle.lean', 'Props/C10Triangle.lean'],
+    'lemma_files': ['Lemmas/LocateTri.lean', 'Model/LocateTri.lean', 'Model/Triangle.lean', 'Model/TriDeriv.lean', 'Model/Helpers.lean', 'Lemmas/Locate.lean', 'Lemmas/Subdivide.lean', 'Lemmas/Bridge.lean', 'Model/Basic.lean', 'Model/Curve.lean', 'Model/Locate.lean'],
     'script': 'props/c10.py',
+    'scripts': ['props/c10.py', 'props/c10t.py'],
     'rule': 'curves degree 1..8 in 2-D/3-D with strictly increasing x control values (hodograph in an open half-space: regular, injective), '
             'dyadic and binary64 nets; parameters: end points, dyadic break points k/2^m of the bisection, random interior; round trip '
             'locate(evaluate(s)) against s with the tolerance of one Newton step from the 2^-21 bisection resolution, result in [0,1], '
             'agreement with the exact Lean model (bisection + Newton); off-shape points at graded distances (outside the box / beyond the '
             'resolution => None); wrong point shape => ValueError; triangles degree 1..4 (perturbed affine lattices): corners, edges, dyadic '
             'and random interior points, outside-box points; distinct by hash of exact inputs',
-    'partial': ['round trip accuracy after the Newton step is validated numerically (proved: the filter never loses an on-curve point in exact '
-                'arithmetic - filter_complete -, the pre-Newton estimate is within the spread cap, the Newton step fixes the true parameter, '
-                'results lie in [0,1], off-box => None); binary64 rounding inside the filter is outside the model (this is finding F-F); '
-                'triangle locate is checked against the specification only until its model is linked'],
-    'trusted_base': ['modelled not verified: locate_point / newton_refine in curve_helpers.py and curve.f90, Curve.locate glue; '
-                     'spec-checked only: locate_point of triangle_intersection.py / .f90, Triangle.locate'],
+    'partial': ['curves: round trip accuracy after the Newton step is validated numerically (proved: the filter never loses an on-curve point in '
+                'exact arithmetic - filter_complete -, the pre-Newton estimate is within the spread cap, the Newton step fixes the true '
+                'parameter, results lie in [0,1], off-box => None); binary64 rounding inside the filter is outside the model (finding F-F)',
+                'triangles (Props/C10Triangle, model Model/LocateTri with Python and Fortran variants): the convex-hull property of triangle '
+                'evaluation, the filter never loses a point of the surface (tri_filter_complete, via the C09 subdivision theorems), on-surface '
+                '=> never None and off-box => None in exact arithmetic, the candidate bookkeeping (centroid, signed width) encodes exactly the '
+                'sub-triangle and its nodes are the restriction of the surface (induction over the 21 rounds), the estimate lies in the open '
+                'reference triangle, the result is one or two Newton steps from it (no clamp: a decided example returns t < 0 by 4e-14), exact '
+                'pre-image = fixed point, Fortran early-return loop = Python loop, variants agree; NOT proved: the quantitative round trip '
+                '(distance of the estimate to the pre-image, quadratic Newton bound) - validated numerically by props/c10t.py'],
+    'trusted_base': ['modelled, tied by correspondence: locate_point / newton_refine of curve_helpers.py and curve.f90 (props/c10.py); locate_point / '
+                     'update_locate_candidates / mean_centroid / newton_refine of triangle_intersection.py and .f90 (props/c10t.py: None-ness and '
+                     '(s,t) bit for bit on exact data, candidate lists round by round in the pure configuration); Curve.locate / Triangle.locate glue '
+                     'exercised'],
     'assumptions': COMMON_ASSUME,
 }
